@@ -10,7 +10,7 @@
    including the calls that fail.
 
    WORLD.  Lib is a library of config sources; a source is an ORDERED list of bindings
-       [name, kind, ty, beh, refs, want, lazy, lwant, dflt, load]
+       [name, kind, ty, beh, refs, want, lazy, lwant, dflt, load, inh]
      kind "obj"     a configurable of type ty; its callable returns an object (beh "ok"), raises
                     (beh "raise") or returns None (beh "none")
           "loader"  a configurable of type "configsection"; called while the environment switch
@@ -19,6 +19,10 @@
      refs (typed want)   : names of sections handed over INSTANTIATED  (ref: / refs:)
      lazy (typed lwant)  : names handed over as lazy references         (lazy_ref: / lazy_refs:)
      dflt                : default = true
+     inh                 : inherit = these names (never its own name).  WHICH VALUES are inherited is
+                           C43's business: a collapsible section that inherits states all its own
+                           keys, so here inheriting can only FAIL (target defined nowhere, cycle) --
+                           and a failure must leave no trace, like every other failed query
    A binding whose name is in AutoNames ("autoload...") is executed while its source is loaded.
 
    MANAGER STATE  m = [orig, sw, stk, ren, inst, lzc, seq, broken]
@@ -69,6 +73,17 @@ Put(f, k, v) == (k :> v) @@ f
 (* ---------- collapse_named_section ----------
    ren is threaded through: sections collapsed on the way stay cached even when the
    section that asked for them fails.  guard = the names being collapsed (_refs).      *)
+\* _get_inherited_sections: breadth first over the inherit lists; q = names still to look at
+RECURSIVE Chain(_, _, _), ChainIn(_, _, _, _, _)
+Chain(stk, q, seen) ==
+  IF q = <<>> THEN TRUE ELSE ChainIn(stk, Tail(q), seen, DefAt(stk[q[1]][1], q[1]).inh, 1)
+ChainIn(stk, q, seen, inh, k) ==
+  IF k > Len(inh) THEN Chain(stk, q, seen)
+  ELSE IF inh[k] \in seen THEN FALSE                   \* "Inherit .. is recursive"
+  ELSE IF inh[k] \notin DOMAIN stk THEN FALSE          \* "Inherit target .. cannot be found"
+  ELSE ChainIn(stk, Append(q, inh[k]), seen \cup {inh[k]}, inh, k + 1)
+InheritOk(stk, n) == Chain(stk, <<n>>, {n})
+
 RECURSIVE Col(_, _, _, _), ColRefs(_, _, _, _, _, _)
 Col(stk, ren, n, guard) ==
   IF n \in guard THEN [st |-> "error", ren |-> ren]                \* "Reference to .. is recursive"
@@ -76,7 +91,7 @@ Col(stk, ren, n, guard) ==
   ELSE IF n \notin DOMAIN stk THEN [st |-> "missing", ren |-> ren]
   ELSE LET s == stk[n][1]
            d == DefAt(s, n)
-       IN IF ~Collapsible(d) THEN [st |-> "error", ren |-> ren]
+       IN IF ~Collapsible(d) \/ ~InheritOk(stk, n) THEN [st |-> "error", ren |-> ren]
           ELSE LET r == ColRefs(stk, ren, d.refs, 1, d.want, guard \cup {n})
                IN IF r.st = "ok" THEN [st |-> "ok", ren |-> Put(r.ren, n, s)]
                   ELSE [st |-> "error", ren |-> r.ren]
@@ -202,6 +217,13 @@ DoObjGet(m, t, n) ==
      ELSE IF TypeOfDef(DefAt(c.ren[n], n)) # t THEN Fail([m EXCEPT !.ren = c.ren], <<>>, "KeyError", "-")
      ELSE InstIn(m, c.ren, n, "InstantiationError", n)
 
+\* n in manager.objects.<t>
+DoContains(m, t, n) ==
+  LET c == Col(m.stk, m.ren, n, {})
+  IN IF c.st = "missing" THEN Res(m, <<>>, "", "-", 0, "-", FALSE, {})
+     ELSE IF c.st = "error" THEN Fail([m EXCEPT !.ren = c.ren], <<>>, "ConfigurationError", "-")
+     ELSE Res([m EXCEPT !.ren = c.ren], <<>>, "", "-", 0, "-", TypeOfDef(DefAt(c.ren[n], n)) = t, {})
+
 \* list(manager.objects.<t>.keys()): sections that cannot be collapsed are not an error here
 DoObjKeys(m, t) ==
   LET ren1 == ColAll(m.stk, m.ren, DOMAIN m.stk)
@@ -239,13 +261,14 @@ Apply(m, o) ==
   CASE o.op = "collapse"    -> DoCollapse(m, o.n)
     [] o.op = "instantiate" -> DoInstantiate(m, o.n)
     [] o.op = "objget"      -> DoObjGet(m, o.t, o.n)
+    [] o.op = "contains"    -> DoContains(m, o.t, o.n)
     [] o.op = "objkeys"     -> DoObjKeys(m, o.t)
     [] o.op = "getdefault"  -> DoGetDefault(m, o.t)
     [] o.op = "force"       -> DoForce(m, o.n, o.k)
     [] o.op = "reload"      -> DoReload(m)
     [] o.op = "add"         -> DoAdd(m, o.s)
     [] o.op = "flip"        -> DoFlip(m)
-IsQuery(o) == o.op \in {"collapse", "instantiate", "objget", "objkeys", "getdefault", "force"}
+IsQuery(o) == o.op \in {"collapse", "instantiate", "objget", "contains", "objkeys", "getdefault", "force"}
 Enabled(m, o) ==
   CASE o.op = "force" -> ~m.broken /\ CanForce(m, o.n, o.k)
     [] IsQuery(o)     -> ~m.broken
@@ -293,7 +316,7 @@ StepNoResidue(m, o, r) ==
 StepRepeatable(m, o, r) ==
   (IsQuery(o) /\ r.exc = "") =>
      LET r2 == Apply(r.m, o) IN
-     r2.exc = "" /\ r2.tok = r.tok /\ r2.keys = r.keys /\ r2.ty = r.ty /\ r2.calls = <<>> /\ r2.m.inst = r.m.inst
+     r2.exc = "" /\ r2.tok = r.tok /\ r2.keys = r.keys /\ r2.ty = r.ty /\ r2.flag = r.flag /\ r2.calls = <<>> /\ r2.m.inst = r.m.inst
 StepAddAtomic(m, o, r) ==
   (o.op = "add" /\ r.exc # "") => r.m = [m EXCEPT !.seq = r.m.seq]
 =========================================================================
